@@ -112,7 +112,25 @@ def gen_block(rng, depth, maxdepth, plain=False, first_in_item=False):
     if r < 0.63:
         return ("hr",)
     if r < 0.70:
-        return ("html", ["<div>", gen_words(rng), "</div>"] if rng.random() < 0.6 else ["<table>", "<tr><td>" + gen_words(rng) + "</td></tr>", "</table>"])
+        k = rng.random()
+        if k < 0.35:
+            return ("html", ["<div>", gen_words(rng), "</div>"])
+        if k < 0.5:
+            return ("html", ["<table>", "<tr><td>" + gen_words(rng) + "</td></tr>", "</table>"])
+        # the other start conditions of CommonMark HTML blocks end at their own closing marker, not at a blank line;
+        # a ">" (or a blank line, at top level) inside them belongs to the block
+        gap = [""] if depth == 0 and rng.random() < 0.5 else []
+        w1, w2 = gen_words(rng), gen_words(rng)
+        kind = rng.choice(["pre", "script", "style", "comment", "pi", "decl", "cdata"])
+        if kind in ("pre", "script", "style"):
+            return ("html", ["<%s>" % kind, w1 + " > " + w2] + gap + ["*" + w2 + "*", "</%s>" % kind])
+        if kind == "comment":
+            return ("html", ["<!-- " + w1, w2 + " > x"] + gap + ["- " + w1 + " -->"])
+        if kind == "pi":
+            return ("html", ["<?php " + w1, "echo '>';"] + gap + [w2 + " ?>"])
+        if kind == "decl":
+            return ("html", ["<!DOCTYPE " + w1.split(" ")[0] + ">"])
+        return ("html", ["<![CDATA[", w1 + " > " + w2] + gap + ["# " + w2, "]]>"])
     if r < 0.84:
         return ("quote", gen_blocks(rng, depth + 1, maxdepth, plain))
     ordered = rng.random() < 0.5
